@@ -126,8 +126,9 @@ class Prog:
 
 
 class ECrate:
-    def __init__(self, pid, name, extra_support="", strict=False):
+    def __init__(self, pid, name, extra_support="", strict=False, strict_allow="non_camel_case_types, non_snake_case, non_upper_case_globals"):
         self.pid, self.name = pid, name
+        self.strict_allow = strict_allow
         self.strict = strict        # strict: program modules carry #![deny(warnings)] and no blanket allow / use lines
         self.dir = os.path.join(BUILD, "e", pid, name)
         self.progs = []
@@ -163,7 +164,7 @@ unexpected_cfgs = { level = "allow", check-cfg = ['cfg(kani)'] }
         open(os.path.join(self.dir, "src", "support.rs"), "w").write(SUPPORT_RS + self.extra_support)
         self._write_lib()
         for p in self.progs:
-            hdr = ("#![deny(warnings)]\n#![allow(non_camel_case_types, non_snake_case, non_upper_case_globals)]\n//\n//\n" if self.strict else
+            hdr = ("#![deny(warnings)]\n%s\n//\n//\n" % (("#![allow(%s)]" % self.strict_allow) if self.strict_allow else "//") if self.strict else
                    "#![allow(unused, non_camel_case_types, non_snake_case, clippy::all)]\nuse crate::support::*;\nuse core::cmp::Ordering;\nuse core::hash::{Hash, Hasher};\n")
             open(os.path.join(self.dir, "src", p.name + ".rs"), "w").write(hdr + p.text)
 
